@@ -12,6 +12,8 @@ VARIABLE i
 Init == i = 1
 Next == i <= Len(Rows) /\ i' = i + 1
 
+Skipped(r) == Ev("auto", TreeOf(r.heap, r.root), IF r.mode = "match" THEN PMatch(r.spec, FALSE, VNone) ELSE r.spec).amb
+
 Verdict(r) ==
   LET t == TreeOf(r.heap, r.root)
       root == IF r.mode = "match" THEN PMatch(r.spec, FALSE, VNone) ELSE r.spec
@@ -32,5 +34,6 @@ Verdict(r) ==
 Check ==
   IF i <= Len(Rows)
   THEN LET v == Verdict(Rows[i]) IN v = "" \/ PrintT(ToJson([reject |-> i, clause |-> v]))
-  ELSE PrintT(ToJson([done |-> Len(Rows)]))
+  ELSE PrintT(ToJson([done |-> Len(Rows),      \* skipped: rows whose outcome depends on an order the documentation leaves open
+                      skipped |-> Cardinality({j \in 1..Len(Rows) : Skipped(Rows[j])})]))
 ====================================================================================
